@@ -84,10 +84,14 @@ impl FileLocation {
                 panic!("Texlang does not have support for file areas yet");
             }
         };
-        path.push(std::ffi::OsString::from(&self.path));
-        path.set_extension(std::ffi::OsString::from(
-            self.extension.as_deref().unwrap_or(default_extension),
-        ));
+        // The file name is the name as written, plus the default extension if none was written
+        // (TeX.2021.529 and .537: cur_name followed by cur_ext). The extension is appended, not
+        // set: `PathBuf::set_extension` would replace an extension that the name part still has
+        // (`\input a.tex.tex` would read `a.tex`, `\input a.` would read `a`).
+        let mut file_name = std::ffi::OsString::from(&self.path);
+        file_name.push(".");
+        file_name.push(self.extension.as_deref().unwrap_or(default_extension));
+        path.push(file_name);
         if !path.is_absolute() {
             panic!("TODO: handle this error (path is relative and no working directory set)");
         }
